@@ -87,10 +87,19 @@ def shards(tier):
     return 8 if tier == "quick" else 16
 
 
+# white space between the directive, the name and the value: any run of
+# blanks and tabs
+SEPS = [" ", " ", "\t", " ", "  ", " \t", "\t\t", " "]
+_SEP_N = [0]
+
+
 def step_line(st):
     if st[0] == "d":
-        return ("%define " + st[1] + " " + st[2]).rstrip() if st[2] == "" \
-            else "%define " + st[1] + " " + st[2]
+        _SEP_N[0] += 1
+        a = SEPS[_SEP_N[0] % len(SEPS)]
+        b = SEPS[(_SEP_N[0] // len(SEPS) + _SEP_N[0]) % len(SEPS)]
+        return ("%define" + a + st[1] + b + st[2]).rstrip() if st[2] == "" \
+            else "%define" + a + st[1] + b + st[2]
     if st[0] == "u":
         return "k $" + st[1]
     if st[0] == "i":
